@@ -19,6 +19,7 @@ package main
 
 import (
 	"encoding/json"
+	"math/big"
 	"fmt"
 	"os"
 	"sort"
@@ -176,6 +177,18 @@ func (h *harness) evalGroups(groups []*Group, random int, report bool) map[*Grou
 			lines = h.registerStrings(lines, *g.v)
 		}
 		s := slot{p: p}
+		for i := range s.direct {
+			s.direct[i] = -1
+		}
+		if g.Site == "poly" {
+			for i := range p.cases {
+				for _, l := range polyLines(&p.cases[i]) {
+					s.caseR = append(s.caseR, add(l))
+				}
+			}
+			slots[gi] = s
+			continue
+		}
 		for i := range p.cases {
 			s.caseR = append(s.caseR, add(p.cases[i].modelLine()))
 			tree := ""
@@ -229,6 +242,21 @@ func (h *harness) evalGroups(groups []*Group, random int, report bool) map[*Grou
 	for gi, g := range groups {
 		s := slots[gi]
 		an := &answers{have: replies != nil}
+		if g.Site == "poly" {
+			var rs []string
+			if replies != nil {
+				for _, li := range s.caseR {
+					rs = append(rs, get(li))
+				}
+			}
+			if fs := h.judgePoly(s.p, rs); len(fs) > 0 {
+				out[g] = fs
+				if report {
+					h.report(g, s.p, fs)
+				}
+			}
+			continue
+		}
 		for i := range s.caseR {
 			an.caseR = append(an.caseR, get(s.caseR[i]))
 			an.caseTree = append(an.caseTree, get(s.caseTree[i]))
@@ -904,6 +932,190 @@ func (h *harness) randomComposite(n int, maxDepth int) {
 	h.evalGroups(groups, 4, true)
 }
 
+// polymorphic: one field node against two concrete types with their own argument defaults.
+func (h *harness) polymorphic(n int) {
+	run := h.run
+	var groups []*Group
+	for i := 0; i < n; i++ {
+		r := run.Rand.Fork()
+		tg := &typeGen{r: r, rich: r.Chance(1, 3)}
+		var t *Ty
+		if r.Chance(1, 3) {
+			t = hx.Pick(r, wrapForms(scalarTy(hx.Pick(r, scalarNames))))
+		} else {
+			t = tg.top(r.Range(0, 3))
+		}
+		dflt := func() *hx.Sexp {
+			if r.Chance(1, 3) {
+				return nil
+			}
+			return tg.dflt(t)
+		}
+		var v *hx.Sexp
+		if !r.Chance(1, 3) {
+			vg := &valueGen{r: r}
+			if r.Chance(1, 3) {
+				vg.junk = r.Range(3, 15)
+			}
+			x := vg.valid(t, false, false, 3)
+			v = &x
+		}
+		groups = append(groups, newPolyGroup(t, dflt(), dflt(), dflt(), v, hx.Pick(r, []string{"interface-list", "union-fragment"})))
+		if len(groups) >= 200 {
+			h.evalGroups(groups, 2, true)
+			groups = nil
+		}
+	}
+	h.evalGroups(groups, 2, true)
+}
+
+// exhaustiveGoKinds: every scalar (and the custom scalars, an enum) × every Go kind a caller can
+// hand over × the boundary values of that kind, through schema.CoerceVariableValue: no panic, the
+// model's verdict, conformance of what is accepted, and — where the Go value denotes a client
+// value — the reference's result.
+func (h *harness) exhaustiveGoKinds() {
+	type probe struct {
+		raw     hx.Sexp
+		denotes *hx.Sexp // the client value the Go value stands for (nil: none)
+	}
+	var probes []probe
+	ints := []*big.Int{big.NewInt(0), big.NewInt(1), big.NewInt(-1), big.NewInt(2), big.NewInt(13), big.NewInt(127), big.NewInt(128),
+		big.NewInt(-128), big.NewInt(255), big.NewInt(65535), big.NewInt(-32768),
+		plus(pow2(31), -1), pow2(31), neg(pow2(31)), plus(neg(pow2(31)), -1), plus(pow2(32), -1),
+		plus(pow2(53), -1), pow2(53), neg(plus(pow2(53), -1)), neg(pow2(53)), pow2(62),
+		plus(pow2(63), -1), pow2(63), neg(pow2(63)), plus(pow2(64), -1), plus(pow2(64), -2)}
+	for _, k := range intKinds {
+		for _, z := range ints {
+			if within(z, k.lo, k.hi) {
+				cv := cvInt(z)
+				probes = append(probes, probe{hx.N("intk", hx.A(k.name), bigA(z)), &cv})
+			}
+		}
+	}
+	for _, hh := range []int64{0, 2, 3, -1, 26, 1 << 25, -(1 << 25), 1 << 32, 4000} {
+		cv := cvHalf(hh)
+		if hh%2 == 0 {
+			cv = cvIntS(fmt.Sprint(hh / 2)) // an integral float32 stands for the integer (as float64 does in JSON)
+		}
+		probes = append(probes, probe{hx.N("f32", hx.I(hh)), &cv})
+	}
+	for _, t := range []string{"nan", "pinf", "ninf", "nan32"} {
+		probes = append(probes, probe{hx.N("nonfinite", hx.A(t)), nil})
+	}
+	for _, sx := range strPool {
+		str := sx.List[1].Atom
+		probes = append(probes, probe{hx.N("bytes", hx.A(str)), nil}, probe{hx.N("jsonnumber", hx.A(str)), nil})
+	}
+	probes = append(probes, probe{hx.N("jsonnumber", hx.A("2")), nil}, probe{hx.N("jsonnumber", hx.A("1.5")), nil})
+	for _, t := range otherTags {
+		probes = append(probes, probe{hx.N("other", hx.A(t)), nil})
+	}
+	types := []*Ty{}
+	for _, n := range scalarNames {
+		types = append(types, scalarTy(n))
+	}
+	types = append(types, customTy("Even"), customTy("Tag"), colorTy)
+	var lines []string
+	type item struct {
+		t      *Ty
+		p      probe
+		inList bool
+	}
+	var items []item
+	for _, base := range types {
+		for _, wrapped := range []bool{false, true} {
+			t := base
+			if wrapped {
+				t = listTy(nnTy(base))
+			}
+			for _, p := range probes {
+				// Float from an integer kind is float64(v): only values that conversion keeps exactly
+				if base.Name == "Float" && tag(p.raw) == "intk" && !exactFloat(bigOf(p.raw.List[2])) {
+					continue
+				}
+				raw := p.raw
+				if wrapped {
+					raw = hx.N("list", p.raw, p.raw)
+				}
+				lines = h.registerStrings(lines, raw)
+				items = append(items, item{t, probe{raw, p.denotes}, wrapped})
+				lines = append(lines, "(rvar () "+t.Sexp().String()+" "+raw.String()+")")
+			}
+		}
+	}
+	var replies []string
+	if h.model != nil {
+		var err error
+		if replies, err = h.model.AskAll(lines); err != nil {
+			fmt.Fprintln(os.Stderr, "model driver failed:", err)
+			os.Exit(2)
+		}
+	}
+	li := 0
+	for _, it := range items {
+		for li < len(lines) && !strings.HasPrefix(lines[li], "(rvar") {
+			li++
+		}
+		reply := ""
+		if replies != nil {
+			reply = replies[li]
+		}
+		li++
+		label := fmt.Sprintf("CoerceVariableValue(%s, %s)", rawText(it.p.raw), it.t.GraphQL())
+		got := func() (res string) {
+			defer func() {
+				if r := recover(); r != nil {
+					res = fmt.Sprintf("panic: %v", r)
+				}
+			}()
+			return resOf(schema.CoerceVariableValue(goIn(it.p.raw), newRegistry().gql(it.t)))
+		}()
+		h.run.Case("gokind|"+it.t.Sexp().String()+"|"+it.p.raw.String(), true)
+		h.run.Count("go-kind-exhaustive:" + map[bool]string{true: "accepted", false: "refused"}[strings.HasPrefix(got, "(ok")])
+		g := newGroup("field", it.t, nil, nil, false)
+		fail := func(kind, what string) {
+			h.run.Violate(kind, what, "", kind == "correspondence", map[string]string{"site": "gokind", "type": g.T, "raw": it.p.raw.String()})
+		}
+		switch {
+		case strings.HasPrefix(got, "panic"):
+			h.ob(orConf, "oracle", false, label+" "+got)
+			fail("crash", label+" "+got)
+			continue
+		case got != "err" && !conformsOK(it.t, got):
+			h.ob(orConf, "oracle", false, label+" = "+got+" does not conform")
+			fail("property", label+" = "+got+" does not conform")
+			continue
+		}
+		if got != "err" && it.p.denotes != nil {
+			cv := *it.p.denotes
+			if it.inList {
+				cv = cvList(cv, cv)
+			}
+			if faithful(it.t, cv) {
+				ref := "err"
+				if c, ok := refCoerce(it.t, cv); ok {
+					ref = hx.N("ok", c).String()
+				}
+				if got != ref {
+					what := label + " = " + got + ", but the value it denotes coerces to " + ref
+					h.ob(orSound, "oracle", false, what)
+					fail("property", what)
+					continue
+				}
+				h.ob(orSound, "oracle", true, "")
+			}
+		}
+		if replies != nil {
+			what := ""
+			if canon(reply) != got {
+				what = label + " = " + got + ", model " + reply
+				fail("correspondence", what)
+			}
+			h.ob(obGoKinds, "correspondence", what == "", what)
+		}
+	}
+}
+
 func loadGroup(path string) (*Group, error) {
 	var g Group
 	if err := hx.LoadReplayCase(path, &g); err != nil {
@@ -958,8 +1170,10 @@ func main() {
 		run.Count("corpus")
 	}
 	h.exhaustive()
+	h.exhaustiveGoKinds()
 	run.Note("exhaustive part: 7 scalars + 2 enums × wrapper forms × every boundary value (in 2–5 list shapes) × the deterministic spellings; @skip/@include × 8 values")
 	h.randomComposite(run.Scale(4000, 150000), run.Scale(4, 6))
+	h.polymorphic(run.Scale(700, 20000))
 
 	h.finish()
 }
